@@ -7,9 +7,14 @@ SEEDED = "/verif/seeded"
 
 # seeded change -> what happened the first time and what was strengthened
 HISTORY = {
+    "C04-21": "missed at first (code byte 0 was always built as MessageClass::Empty): half of the code-0 messages are now built by hand as Reserved(0); whether their payload is sent is read off the unlimited call as before",
+    "C06-21": "missed at first (texts stopped at 9000 bytes): text options now include strings of 65535, 65536 and about 65800 bytes",
+    "C07-22": "missed at first (request codes always came from a byte): code bytes 0xFF and 0x00 are now also built by hand as Request(UnKnown) / Response(UnKnown) / Reserved(0)",
+    "C10-24": "missed at first (the application always answered 2.05 / 2.04): a fifth of the random configurations answer 4.04, 5.00, 2.01 or 4.31",
+    "C14-24": "missed at first (no eight-byte token was a short token behind zeros and a marker byte): four such tokens were added to the wide alphabet",
+    "C09-23": "missed at first (budgets stopped at 1280 bytes although C09 does not bound them): a fifth of the plain requests now run under budgets up to 5000 bytes; the extended generator first failed on the unchanged tree (finding 17, fixed in fe4e012). After that fix the handler never proposes more than 1024 bytes, so refusing size exponent 7 in BlockValue::new no longer touches C09 on the current tree (the registered run against the fixed tree is silent and the author's demonstration passes there); it is a C09 violation on the tree before the fix, where it was confirmed, and it still breaks C13, whose check catches it (`construction-from-byte-size`)",
     "C04-18": "missed at first (an over-long value never had a sibling under the same number): directed cases now put the over-long value before, after and between siblings and behind other options",
     "C06-18": "missed by C06 at first (set_content_format was only exercised by C19): the typed-accessor histories now include set_content_format, checked against the model of all other options",
-    "C09-23": "missed at first (budgets stopped at 1280 bytes although C09 does not bound them): a fifth of the plain requests now run under budgets up to 5000 bytes; the extended generator first failed on the unchanged tree (finding 17, fixed in fe4e012)",
     "C17-19": "same shape as C17-6 / C17-11: caught by the unoptimised configuration, which the quick tier now runs",
     "C05-15": "missed by C05 at first (the Observe number space was only read through ObserveOption::try_from): all 65536 values now also go through CoapRequest::get_observe_flag, minimal and zero-padded",
     "C17-16": "missed at first (the checks called to_cow() and never the `From<Unquote> for Cow` conversion, as the coverage measurement had shown): every value is now also converted with Cow::from",
